@@ -26,7 +26,7 @@ func init() { register(c10{}) }
 func (c10) ID() string    { return "C10" }
 func (c10) Level() string { return "fault_enumeration" }
 func (c10) Rule() string {
-	return "packets of the C01 domain plus malformed-but-constructible ones (QoS 3, no filters, no topic, zero packet id, will QoS 3) x writers: succeeding; re-entrant (the writer encodes other packets inside Write); the caller's own *bufio.Writer, healthy and carrying the error of an earlier failed flush; failing before writing (0,E); accepting only the first k bytes then (k,E) for EVERY k below the frame length when the frame is <= 256 bytes (boundary and log-spaced k above), and k = frame length (everything accepted, error reported all the same). Offline check of the recorded Write calls: bytes handed to the writer form exactly one frame (reference header parser), returned n = bytes accepted = frame length = 1+|remaining length field|+remaining length = N of String()'s 'N bytes'; with a failing writer the returned error is the writer's (errors.Is) and n the bytes it accepted; Undefined writes nothing and returns an error. distinct = (packet signature, writer script); non-trivial = optional field present or failing writer"
+	return "packets of the C01 domain plus malformed-but-constructible ones (QoS 3, no filters, no topic, zero packet id, will QoS 3) x writers: succeeding; re-entrant (the writer encodes other packets inside Write); the caller's own *bufio.Writer, healthy, carrying the error of an earlier failed flush, and partly filled (0, 1, L-1, L/2, L bytes free) over a connection that fails on the flush WriteTo triggers; failing before writing (0,E); accepting only the first k bytes then (k,E) for EVERY k below the frame length when the frame is <= 256 bytes (boundary and log-spaced k above), and k = frame length (everything accepted, error reported all the same). Offline check of the recorded Write calls: bytes handed to the writer form exactly one frame (reference header parser), returned n = bytes accepted = frame length = 1+|remaining length field|+remaining length = N of String()'s 'N bytes'; with a failing writer the returned error is the writer's (errors.Is) and n the bytes it accepted; Undefined writes nothing and returns an error. distinct = (packet signature, writer script); non-trivial = optional field present or failing writer"
 }
 func (c10) Assumptions() []string {
 	return []string{"writers obey io.Writer: a short write comes with a non-nil error", "string fields avoid the substring ' bytes' so that the size printed by String() parses unambiguously"}
@@ -240,6 +240,50 @@ func (c10) Run(c *run.Ctx, phase, idx int) {
 			c.Violation("C10/bufio-sticky/error-replaced/"+T, fmt.Sprintf("WriteTo returned %v, not the writer's error", err4), det(nil))
 		case n4 != 0:
 			c.Violation("C10/bufio-sticky/count/"+T, fmt.Sprintf("the writer accepted nothing, WriteTo returned n=%d", n4), det(nil))
+		}
+	}
+
+	// the caller's *bufio.Writer already holds earlier output (acks are
+	// batched), little or no room is left, and the connection fails on the
+	// flush that WriteTo's bytes trigger
+	if len(frame) >= 2 {
+		L := len(frame)
+		size := gen.Pick(r, 16, 64, 512, 4096)
+		for _, free := range []int{0, 1, L - 1, L / 2, L, size} {
+			if free < 0 || free > size {
+				continue
+			}
+			pre := size - free
+			for _, failAt := range []int{0, pre / 2, pre} {
+				under := &mon.RecordingWriter{FailAt: failAt, Err: mon.ErrInjected}
+				bw := bufio.NewWriterSize(under, size)
+				bw.Write(make([]byte, pre)) // fits: nothing flushed yet
+				var n6 int64
+				var err6 error
+				pan := mon.Guard(func() { n6, err6 = pkt.WriteTo(bw) })
+				c.Eval(1)
+				c.Distinct(h0^run.Hash64("bufio-prefilled", itoa(size), itoa(free), itoa(failAt)), true)
+				c.Count("writer", "bufio-prefilled-failing-flush", 1)
+				accepted := int64(under.Accepted + bw.Buffered() - pre)
+				d := func() map[string]interface{} {
+					return det(map[string]interface{}{"bufio_size": size, "free": free, "underlying_fails_after": failAt})
+				}
+				switch {
+				case pan != nil:
+					c.Violation("C10/bufio-prefilled/panic/"+T, fmt.Sprintf("WriteTo panicked on a bufio.Writer (size %d, %d bytes free) whose flush fails: %s", size, free, pan.String()), d())
+				case !under.Failed:
+					// the frame fitted, or the flush it caused went through
+					if err6 != nil || n6 != int64(L) {
+						c.Violation("C10/bufio-prefilled/healthy/"+T, fmt.Sprintf("the connection under the bufio.Writer (%d bytes free) did not fail, WriteTo of a %d-byte frame returned n=%d err=%v", free, L, n6, err6), d())
+					}
+				case err6 == nil:
+					c.Violation("C10/bufio-prefilled/error-swallowed/"+T, fmt.Sprintf("the flush triggered by WriteTo failed, WriteTo returned n=%d err=nil", n6), d())
+				case !errors.Is(err6, mon.ErrInjected):
+					c.Violation("C10/bufio-prefilled/error-replaced/"+T, fmt.Sprintf("WriteTo returned %v, not the writer's error", err6), d())
+				case n6 != accepted:
+					c.Violation("C10/bufio-prefilled/count/"+T, fmt.Sprintf("the bufio.Writer took %d bytes of the frame, WriteTo returned n=%d", accepted, n6), d())
+				}
+			}
 		}
 	}
 
